@@ -30,6 +30,22 @@ next store) - so reads are warm before a reorg and an answer must follow the blo
 height / NOW holds a hash, through blockchain.Blockchain and the core readers under it. Reader-level
 memos (a cache of any lookup family that outlives a write) and a RevertHead that keeps the hash
 indexes are switched on one at a time as self-tests (TLC must object); the repaired memo is verified.
+REPRESENTATION (shape classes): every slice / map / byte-string / pointer field of every stored type
+is part of the abstract content - a container is nil / empty / a singleton / many, a pointer nil /
+to zero / to non-zero - with a wire form per codec family and, per field, a normal form (the constant
+table MCFieldTable of MCBlockBlob.tla, derived from the encoders: cbor tags, the hand-written codecs,
+the blob): invariants ShapePreserved (what an accessor returns has, field by field, the normal form
+of the stored shape, through the full decoders, the events projection and the lists),
+CodecAgreesWithTable, ReencodeIdentity; exhaustive over one object of a block varied at a time (one
+field over all its shape classes, all-empty, all-nil) for every transaction type, receipts, header,
+state update and declared classes of both kinds; decoder / encoder slips (empty->nil, nil->empty, nil
+pointer->zero, zero pointer->nil, an added omitempty) are self-tests that must violate ShapePreserved.
+The specification's table with its wire forms / returned shapes is exported (BlockBlobShapeMBT.tla) to
+TestShapeSweep: the stored Go types' fields are enumerated by reflection, a fully populated object of
+every type is varied one field at a time over every shape class (+ all-empty, all-nil), written through
+the real writers on db/memory, db/pebblev2 and the poisoning store x both state backends, read through
+every accessor, compared shape-aware field by field, the returned objects are written again into a
+second database that must be byte-identical, and the encoding/json renderings are compared.
 """
 import json
 import vlib
@@ -50,6 +66,17 @@ def run(ctx):
     # the chain is not append-only: RevertHead and replacement blocks re-including reverted transactions
     ctx.tlc_check("chain", "MCBlockBlob.tla", "BlockBlob_reorg.cfg", timeout=600)
     ctx.tlc_check("chain", "MCBlockBlob.tla", "BlockBlob_reorg_deep.cfg", timeout=600)
+    ctx.tlc_check("chain", "MCBlockBlob.tla", "BlockBlob_reorg_classes.cfg", timeout=600)
+    # representation: one object of a block varied at a time over all shape classes of all its fields
+    r = ctx.tlc_check("chain", "MCBlockBlob.tla", "BlockBlob_shape.cfg", timeout=900, coverage=thorough)
+    if thorough:
+        vlib.require_actions_covered(r, ignore=("Revert", "ReadAny"))
+    shape_selftests = ["emptynil", "nilempty"] + (["nilptrzero", "zeroptrnil", "omitempty"] if thorough else [])
+    for name in shape_selftests:
+        r = ctx.tlc_check("chain", "MCBlockBlob.tla", "BlockBlob_self_shape_%s.cfg" % name, timeout=300,
+                          expect_violation=True, label="selftest:shape_" + name)
+        if r["ok"] or r["violated"] != "ShapePreserved":
+            raise vlib.Broken("self-test shape_%s: TLC did not object with ShapePreserved to the codec slip (%s)" % (name, r["violated"]))
     selftests = ["lastend", "txsection", "hashindex", "revertindex", "memo_loc", "memo_num", "memo_l1"]
     if thorough:
         selftests += ["memo_hdr", "memo_blob", "memo_su"]
@@ -58,7 +85,7 @@ def run(ctx):
                           expect_violation=True, label="selftest:" + name)
         if r["ok"] or not r["violated"]:
             raise vlib.Broken("self-test %s: TLC did not object to the seeded slip" % name)
-    ctx.coverage["spec_selftests_caught"] = len(selftests)
+    ctx.coverage["spec_selftests_caught"] = len(selftests) + len(shape_selftests)
     # the repaired design of a reader-level memo (dropped by every write) satisfies every property
     ctx.tlc_check("chain", "MCBlockBlob.tla", "BlockBlob_memo_purged_loc.cfg", timeout=600)
     if thorough:
@@ -73,6 +100,22 @@ def run(ctx):
         r = ctx.tlc_check("chain", "MCBlockBlob.tla", "BlockBlob_deep.cfg", timeout=1800, coverage=True)
         vlib.require_actions_covered(r, ignore=("Revert", "ReadAny"))   # the append-only instance
         ctx.tlc_check("chain", "MCBlockBlob.tla", "BlockBlob_thorough.cfg", timeout=3000)
+
+    # ---- representation sweep: the specification's per-field table (wire forms, returned shapes) drives the engine
+    table = ctx.tlc_simulate("chain", "BlockBlobShapeMBT.tla", "BlockBlob_shapeexport.cfg", depth=2, seed=1, timeout=300)[0]
+    if len(table) < 100 or not all(row.get("cases") or row.get("norm") == "key" for row in table):
+        raise vlib.Broken("the specification exported no usable field table (%d rows)" % len(table))
+    for k in range(3 if thorough else 1):
+        sres = ctx.run_engine(binary, "TestShapeSweep",
+                              {"seed": ctx.seed * 7919 + k, "table": table, "chain": True,
+                               "backends": ["memory", "pebblev2", "memory-poisoned"]}, timeout=1500)
+        ctx.absorb(sres, "accessors", "TestShapeSweep")
+        st = sres.get("stats", {})
+        if int(st.get("shape_variants_compared", 0)) < 450 or int(st.get("shape_fields_found", 0)) < 100:
+            raise vlib.Broken("shape sweep is vacuous: %s variants compared over %s fields" % (
+                st.get("shape_variants_compared"), st.get("shape_fields_found")))
+    ctx.coverage["shape_table_rows"] = len(table)
+    ctx.coverage["shape_rows_not_exact"] = sorted("%s:%s" % (row["path"], row["norm"]) for row in table if row["norm"] != "exact")
 
     nruns = 6 if thorough else 1
     depth = 12 * (110 if thorough else 50)          # ~12 states per behaviour (7 stores, 3 reverts, restarts, emit)
@@ -148,6 +191,11 @@ def run(ctx):
         "memory-poisoned backend: a wrapper enforcing the db.Get / UncopiedValue lending contract (the lent slice is "
         "overwritten when the callback returns / the iterator moves), so retained database memory shows as garbage",
         "what was stored = the objects handed to SanityCheckNewHeight + Store (chainkit blocks built by the real Simulate)",
+        "representation sweep: what was stored = the objects handed to the core.Write* / state.WriteClass writers (any value a "
+        "writer takes is a storable value; a variant no writer takes - a nil hash used as database key, a nil element an encoder "
+        "dereferences - is listed in shape_variants_not_storable and not judged); per-field normal forms are the constant table "
+        "MCFieldTable (exact everywhere except InvokeTransaction.ProofFacts empty=nil [omitempty] and Block.Transactions / "
+        "Receipts nil=empty [the blob stores offsets only]); fields the reflection finds that the table does not list are exact",
     ]
     return ctx.finish(
         "model_checking",
